@@ -22,9 +22,10 @@ def main():
     pid, k = sys.argv[1], sys.argv[2]
     checks = [c for c in sys.argv[3:] if not c.startswith("--")] or [pid]
     wt = "/tmp/wt/%s" % pid
-    if k.startswith("r2:"):
-        src = "%s/SEEDED2/%s" % (wt, k[3:])
-        dst = "%s/seeded/%s-r2-%s" % (VERIF, pid, k[3:])
+    if k.startswith("r") and ":" in k:
+        rnd, kk = k[1:].split(":")
+        src = "%s/SEEDED%s/%s" % (wt, rnd, kk)
+        dst = "%s/seeded/%s-r%s-%s" % (VERIF, pid, rnd, kk)
     else:
         src = "%s/SEEDED/%s" % (wt, k)
         dst = "%s/seeded/%s-%s" % (VERIF, pid, k)
@@ -76,6 +77,11 @@ def main():
     if rc != 0:
         print("patch does not apply to /repo:", o)
         sys.exit(2)
+    saved = {}
+    for c in checks:
+        ep = os.path.join(VERIF, "evidence", c + ".json")
+        if os.path.exists(ep):
+            saved[ep] = open(ep).read()
     try:
         for c in checks:
             t0 = time.time()
@@ -86,6 +92,9 @@ def main():
     finally:
         sh("git -C /repo checkout -- .")
         sh("git -C /repo clean -fdq")
+        # evidence files describe the unchanged tree only: put back what the seeded run overwrote
+        for ep, text in saved.items():
+            open(ep, "w").write(text)
         shutil.rmtree(os.path.join(VERIF, "replays", "tmp"), ignore_errors=True)
     meta["verif"] = out
     json.dump(meta, open(os.path.join(dst, "meta.json"), "w"), indent=1)
